@@ -145,6 +145,11 @@ class RecurrenceNetwork(RecurrencePlot, Network):
                              node_weights=node_weights,
                              silence_level=silence_level)
 
+    def __cache_state__(self):
+        #  (the network part exists once Network.__init__() has run)
+        return RecurrencePlot.__cache_state__(self) + (
+            Network.__cache_state__(self) if hasattr(self, "_mut_A") else ())
+
     def __str__(self):
         """
         Returns a string representation.
